@@ -13,7 +13,7 @@ SEEDS = st.integers(0, 2 ** 32 - 1)
 
 ELEMENTS = ["C", "N", "O", "S", "P", "B", "F", "Na", "CL", "CA", "W"]
 RESNAMES = ["ALA", "GLY", "BMIM", "BF4", "SOL", "POPC", "VTE", "DPS", "CUR", "LYS",
-            "R1", "A", "X9Z", "MOL"]
+            "R1", "A", "X9Z", "MOL", "CHOLE", "DPPCX"]          # incl. five-character names (the .gro limit)
 
 
 # ------------------------------------------------------------------ rotations
@@ -289,7 +289,7 @@ def residue_partition(draw, n, max_res):
 
 @st.composite
 def mol_topology(draw, name, n, kinds=("tree", "chain", "star", "cyclic"),
-                 max_res=1, hydrogens="some", resname=None, nres=None):
+                 max_res=1, hydrogens="some", resname=None, nres=None, resid_mode="consecutive"):
     """Topology part of a molecule spec (no coordinates)."""
     kind = draw(st.sampled_from(list(kinds)))
     edges = draw(graph_edges(n, kind))
@@ -308,9 +308,23 @@ def mol_topology(draw, name, n, kinds=("tree", "chain", "star", "cyclic"),
         rns = [resname]
     else:
         rns = [draw(st.sampled_from(RESNAMES)) for _ in sizes]
-    return {"name": name, "graph": kind, "edges": edges,
+    spec = {"name": name, "graph": kind, "edges": edges,
             "residues": split_residues_spec(names, rns, sizes,
                                             draw(st.integers(1, 900)))}
+    if resid_mode == "arbitrary" and len(sizes) > 1 and draw(st.booleans()):
+        # residue numbers need not be consecutive nor unique inside a molecule (two chains
+        # numbered 1..n, 1..m): only neighbours must differ in (name, number)
+        prev = None
+        for res in spec["residues"]:
+            for _ in range(20):
+                num = draw(st.integers(1, 6))
+                if (res[0], num) != prev:
+                    break
+            else:
+                num = (prev[1] % 6) + 1
+            res[1] = num
+            prev = (res[0], num)
+    return spec
 
 
 def spec_n(spec):
